@@ -363,3 +363,210 @@ Proof.
   - intros _. cbn. lia.
   - unfold dial_ok in H1. rewrite H2 in H1. apply H1. exact Hpos.
 Qed.
+
+(* ------------------------------------------------------------------ callers never wait: progress and frame *)
+Definition dead (s : state) : bool := fatal s || panicked s.
+
+Lemma step_dead : forall s l, dead s = true -> step s l = s.
+Proof. intros s l H. unfold step, step_out. unfold dead in H. rewrite H. reflexivity. Qed.
+
+Lemma run_dead : forall tr s, dead s = true -> run s tr = s.
+Proof. induction tr as [|l tr IH]; intros s H; cbn; auto. rewrite step_dead; auto. apply IH; auto. Qed.
+
+Lemma cget_cset_same : forall cid p l, cget cid (cset cid p l) = Some p.
+Proof. intros. unfold cset. cbn. rewrite N.eqb_refl. reflexivity. Qed.
+
+Lemma cget_cdel_other : forall cid cid' l, cid' <> cid -> cget cid' (cdel cid l) = cget cid' l.
+Proof.
+  intros cid cid' l Hne. induction l as [|[k p] r IH]; cbn; auto.
+  destruct (cid =? k) eqn:E.
+  - apply N.eqb_eq in E; subst k. rewrite IH.
+    destruct (cid' =? cid) eqn:E2; [apply N.eqb_eq in E2; contradiction|reflexivity].
+  - cbn. rewrite IH. reflexivity.
+Qed.
+
+Lemma cget_cset_other : forall cid cid' p l, cid' <> cid -> cget cid' (cset cid p l) = cget cid' l.
+Proof.
+  intros. unfold cset. cbn. destruct (cid' =? cid) eqn:E; [apply N.eqb_eq in E; contradiction|].
+  apply cget_cdel_other; auto.
+Qed.
+
+Lemma next_target_size : forall gs x g rest,
+  next_target gs = Some (x, g, rest) -> length (concat gs) = S (length (concat (g :: rest))).
+Proof.
+  induction gs as [|[|y g'] r IH]; intros x g rest H; cbn in H; try discriminate.
+  - cbn. eapply IH; eauto.
+  - inversion H; subst. cbn. reflexivity.
+Qed.
+
+Lemma next_target_none : forall gs, next_target gs = None -> concat gs = [].
+Proof.
+  induction gs as [|[|y g'] r IH]; intros H; cbn in *; auto; discriminate.
+Qed.
+
+Lemma after_write_size : forall md r g rest,
+  (length (concat (after_write md r g rest)) <= length (concat (g :: rest)))%nat.
+Proof.
+  intros md r g rest. destruct r, md; cbn; rewrite ?app_length; lia.
+Qed.
+
+(* one own step of a caller strictly decreases its remaining work — whatever state the streams are in;
+   the step inspects no writer field ([st_inflight], [st_wdone]) and waits for nothing *)
+Theorem write_progress : forall s cid,
+  dead s = false ->
+  (pending_size (step s (LWrite cid)) cid < pending_size s cid)%nat
+  \/ pending_size s cid = 0%nat
+  \/ dead (step s (LWrite cid)) = true.
+Proof.
+  intros s cid Hd. unfold step, step_out. unfold dead in Hd. rewrite Hd. cbn [fst].
+  unfold do_write, pending_size.
+  destruct (cget cid (callers s)) as [p|] eqn:Ec; [|right; left; reflexivity].
+  destruct (next_target (p_groups p)) as [[[sid g] rest]|] eqn:En.
+  - destruct (hget sid (objs s)) as [st|] eqn:Eh.
+    + left. destruct (write_stream st (p_msg p)) as [st' r]. cbn [fst]. cbn [callers upd_callers].
+      rewrite cget_cset_same. cbn [p_groups].
+      rewrite (next_target_size _ _ _ _ En).
+      pose proof (after_write_size (p_mode p) r g rest). lia.
+    + right; right. cbn. unfold dead. cbn. apply orb_true_r.
+  - right; left. rewrite (next_target_none _ En). reflexivity.
+Qed.
+
+(* labels of the writer / reader / closer threads of stream sid *)
+Definition writer_label (l : label) : option N :=
+  match l with
+  | LTake sid | LSendOk sid | LSendFail sid | LReadErr sid | LCloseQueue sid => Some sid
+  | _ => None
+  end.
+
+(* a writer label of stream sid touches nothing but the record of stream sid:
+   neither the indexes, nor any caller's program, nor the dial queue, nor another stream *)
+Theorem writer_frame : forall s l sid,
+  writer_label l = Some sid ->
+  callers (step s l) = callers s /\ by_peer (step s l) = by_peer s /\ by_tag (step s l) = by_tag s
+  /\ pool_ids (step s l) = pool_ids s /\ dialq (step s l) = dialq s /\ running (step s l) = running s
+  /\ fatal (step s l) = fatal s /\ panicked (step s l) = panicked s
+  /\ forall sid', sid' <> sid -> hget sid' (objs (step s l)) = hget sid' (objs s).
+Proof.
+  intros s l sid Hl. unfold step, step_out.
+  destruct (fatal s || panicked s); cbn [fst]; [repeat split; auto|].
+  destruct l; cbn in Hl; try discriminate; inversion Hl; subst; cbn [fst].
+  - destruct (hget sid (objs s)) as [st|] eqn:E; cbn [fst]; [|repeat split; auto].
+    destruct (take st) as [st' o]; cbn. repeat split; auto. intros; apply hget_hset_other; auto.
+  - unfold upd_stream. destruct (hget sid (objs s)); cbn; repeat split; auto. intros; apply hget_hset_other; auto.
+  - unfold upd_stream. destruct (hget sid (objs s)); cbn; repeat split; auto. intros; apply hget_hset_other; auto.
+  - unfold upd_stream. destruct (hget sid (objs s)); cbn; repeat split; auto. intros; apply hget_hset_other; auto.
+  - unfold upd_stream. destruct (hget sid (objs s)); cbn; repeat split; auto. intros; apply hget_hset_other; auto.
+Qed.
+
+(* labels that are NOT steps of caller cid's own program *)
+Definition foreign (cid : N) (l : label) : bool :=
+  match l with
+  | LBroadcast c _ _ | LSendById c _ _ | LWrite c | LDialPeer c _ | LDialDone c => negb (c =? cid)
+  | LDialTake => false
+  | _ => true
+  end.
+
+Lemma callers_start_caller_other : forall s c m md gs ps cid,
+  c <> cid -> cget cid (callers (start_caller s c m md gs ps)) = cget cid (callers s).
+Proof.
+  intros. unfold start_caller. destruct (all_in_pool s (concat gs)); cbn; auto.
+  apply cget_cset_other; auto.
+Qed.
+
+Lemma foreign_keeps_pending : forall s l cid,
+  foreign cid l = true -> cget cid (callers (step s l)) = cget cid (callers s).
+Proof.
+  intros s l cid Hf. unfold step, step_out.
+  destruct (fatal s || panicked s); cbn [fst]; auto.
+  destruct l; cbn in Hf; try discriminate; cbn [fst];
+    try (apply negb_true_iff in Hf; apply N.eqb_neq in Hf).
+  - unfold add_stream; cbn; auto.
+  - apply callers_start_caller_other; auto.
+  - apply callers_start_caller_other; auto.
+  - unfold do_write. destruct (cget cid0 (callers s)) as [p|]; cbn [fst]; auto.
+    destruct (next_target (p_groups p)) as [[[sid g] rest]|]; cbn [fst]; auto.
+    destruct (hget sid (objs s)) as [st|]; cbn [fst]; auto.
+    destruct (write_stream st (p_msg p)); cbn. apply cget_cset_other; auto.
+  - unfold add_tags. destruct (negb (memN sid (pool_ids s))); cbn [fst]; auto.
+    destruct (hget sid (objs s)) as [st|]; cbn [fst]; auto.
+    destruct (add_new_tags (st_tags st) tags); cbn; auto.
+  - unfold remove_tags. destruct (negb (memN sid (pool_ids s))); cbn [fst]; auto.
+    destruct (hget sid (objs s)) as [st|]; cbn [fst]; auto.
+    match goal with |- context [idx_remove_all ?a ?b ?c] => destruct (idx_remove_all a b c) end; cbn; auto.
+  - destruct (all_in_pool s (streams_of s tags)); cbn [fst]; auto.
+  - destruct (hget sid (objs s)) as [st|]; cbn [fst]; auto. destruct (take st); cbn; auto.
+  - unfold upd_stream. destruct (hget sid (objs s)); cbn; auto.
+  - unfold upd_stream. destruct (hget sid (objs s)); cbn; auto.
+  - unfold upd_stream. destruct (hget sid (objs s)); cbn; auto.
+  - unfold upd_stream. destruct (hget sid (objs s)); cbn; auto.
+  - unfold remove_stream. destruct (hget sid (objs s)) as [st|]; auto.
+    destruct (st_qclosed st && negb (st_removed st)); auto.
+    destruct (negb (memN sid (pool_ids s))); auto.
+    destruct (idx_remove (by_peer s) (st_peer st) sid); auto.
+    destruct (idx_remove_all (by_tag s) (st_tags st) sid); auto.
+  - unfold send_enqueue.
+    destruct ((0 <? dial_cap (cfg s)) && (dial_cap (cfg s) <=? N.of_nat (length (dialq s)))); cbn [fst]; auto.
+  - unfold dial_peer. destruct (cget cid0 (callers s)) as [p|]; cbn [fst]; auto.
+    destruct (next_target (p_groups p)); cbn [fst]; auto.
+    destruct (p_peers p) as [|peer rest]; cbn [fst]; auto.
+    destruct (mget peer (by_peer s)).
+    + destruct opn as [[[cap tags] cg]|]; cbn [fst].
+      * destruct (add_stream s peer cap tags cg) as [s1 sid] eqn:Ea; cbn [fst].
+        rewrite callers_start_caller_other; auto.
+        unfold add_stream in Ea; inversion Ea; subst; cbn; auto.
+      * cbn. apply cget_cset_other; auto.
+    + cbn [fst]. apply callers_start_caller_other; auto.
+  - unfold dial_done. destruct (cget cid0 (callers s)) as [p|]; auto.
+    destruct (next_target (p_groups p)); auto. destruct (p_peers p); auto. destruct (p_mode p); auto.
+    destruct (0 <? running s); auto. cbn. apply cget_cdel_other; auto.
+Qed.
+
+Fixpoint count_writes (cid : N) (tr : list label) : nat :=
+  match tr with
+  | [] => 0
+  | LWrite c :: r => if c =? cid then S (count_writes cid r) else count_writes cid r
+  | _ :: r => count_writes cid r
+  end.
+
+(* Structural non-blocking: take ANY schedule in which caller cid only performs writes of its current
+   operation and everybody else (all stream writers, readers, closers, other callers, including never
+   taking a blocked stream's MsgSend return) does whatever it likes.  After k own steps at most
+   (initial work - k) remains: the operation is over after at most [pending_size] own steps, each of
+   which is always enabled — no step of the caller depends on a writer label being taken. *)
+Theorem caller_progress_all_schedules : forall tr s cid,
+  Forall (fun l => l = LWrite cid \/ foreign cid l = true) tr ->
+  (pending_size (run s tr) cid <= pending_size s cid - count_writes cid tr)%nat
+  \/ dead (run s tr) = true.
+Proof.
+  induction tr as [|l tr IH]; intros s cid Hall; cbn [run fold_left].
+  - left. cbn. lia.
+  - inversion Hall as [|l' tr' Hl Htr]; subst.
+    destruct (dead s) eqn:Hd.
+    + right. change (dead (run (step s l) tr) = true). rewrite step_dead; auto. rewrite run_dead; auto.
+    + destruct (IH (step s l) cid Htr) as [IHk|IHk]; [|right; exact IHk].
+      change (fold_left step tr (step s l)) with (run (step s l) tr).
+      destruct Hl as [Hl|Hl].
+      * subst l. cbn [count_writes]. rewrite N.eqb_refl.
+        destruct (write_progress s cid Hd) as [Hw|[Hw|Hw]].
+        -- left. lia.
+        -- (* nothing left: a further write is a no-op *)
+           left.
+           assert (Hz : pending_size (step s (LWrite cid)) cid = 0%nat).
+           { unfold step, step_out. unfold dead in Hd. rewrite Hd. cbn [fst]. unfold do_write.
+             unfold pending_size in Hw |- *.
+             destruct (cget cid (callers s)) as [p|] eqn:Ec; cbn [fst]; [|rewrite Ec; reflexivity].
+             destruct (next_target (p_groups p)) as [[[sid g] rest]|] eqn:En; cbn [fst].
+             - rewrite (next_target_size _ _ _ _ En) in Hw. discriminate.
+             - rewrite Ec. exact Hw. }
+           lia.
+        -- right. rewrite run_dead; auto.
+      * left.
+        assert (Hp : pending_size (step s l) cid = pending_size s cid).
+        { unfold pending_size. rewrite foreign_keeps_pending; auto. }
+        assert (Hc : count_writes cid (l :: tr) = count_writes cid tr).
+        { destruct l; cbn in *; auto. apply negb_true_iff in Hl. rewrite Hl. reflexivity. }
+        rewrite Hp in IHk. rewrite Hc. exact IHk.
+Qed.
+
+Lemma caller_not_env : forall l, caller_label l = true -> env_label l = false.
+Proof. intros l H. destruct l; cbn in *; auto; discriminate. Qed.
